@@ -126,8 +126,36 @@ def _files(items, name='main.asm', out=None):
     return out
 
 
+class _Items(list):
+    """A file's item list whose insert() never lands inside a block that is not compiled (the tool still parses such
+    lines, and the properties do not speak about errors there)."""
+
+    def insert(self, pos, it):
+        depth = 0
+        inside = []
+        for i, x in enumerate(self):
+            inside.append(depth > 0)
+            if x['t'] in ('if', 'ifdef', 'ifndef'):
+                depth += 1
+            elif x['t'] == 'endif':
+                depth -= 1
+        inside.append(False)
+        pos = max(0, min(pos, len(self)))
+        while pos < len(self) and inside[pos]:
+            pos += 1
+        list.insert(self, pos, it)
+
+
 def inject(draw, items, fault):
     items = copy.deepcopy(items)
+
+    def wrap(its):
+        out = _Items(its)
+        for k, it in enumerate(out):
+            if it['t'] == 'include':
+                it['items'] = wrap(it['items'])
+        return out
+    items = wrap(items)
     files = _files(items)
     fnames = sorted(files)
     its = files[draw(st.sampled_from(fnames))]
